@@ -930,7 +930,7 @@ def fam_pos(tier, seed):
         Rule("T", Seq(Lit("b"), Lit("c")), no_skip_ws=True, position=True),
         Rule("U", Seq(Lit("d"), Clo(Lit("d"))), no_skip_ws=True, position=True, string=True),
         Rule("M", Lit("e"), no_skip_ws=True, position=True, memoize=True)], root="S", maxlen=1,
-        alpha=["a", "b"], meta={"shape": "offsets_beyond_32_bits", "synthetic": ["@4g:61:6263646465"]})
+        alpha=["a", "b"], meta={"shape": "offsets_beyond_32_bits", "synthetic": ["@4g:00:6263646465"]})
     out.append(g)
     return out
 
